@@ -115,3 +115,158 @@ Example C08_example_clamp :
   clamp_regret_Q (- (400000 # 1)) == - (300000 # 1) /\ clamp_regret_Q (7 # 2) == 7 # 2.
 Proof. exact Proofs.C08_examples.clamp_values. Qed.
 Print Assumptions C08_example_clamp.
+
+(* ---------- the estimator is unbiased: expectations over external sampling ----------
+   Definitions: Spec/SpecSampling.v.  A `qtree` is read as the FULL game tree (all actions at every node; the
+   edge number is the traverser's strategy probability below KWalker nodes, the opponent's below KOpponent
+   nodes, the chance probability below KChance nodes); `full_ok`: the numbers are >= 0 and sum to 1 at every
+   internal node; `value`: expected payoff; `isamples t`: the finite distribution of external-sampling trees
+   of t (all children kept at KWalker nodes, exactly one child j kept with probability p_j at KOpponent /
+   KChance nodes, the kept edge carrying p_j resp. 1), every kept edge annotated with its index in the full
+   tree; `samples t = dmap forget (isamples t)`: the same distribution on the plain sampled trees the model
+   (Model/Cfr.v) works on; `expect f d = sum of p * f s`. *)
+From RP Require Import Spec.SpecSampling.
+From RP Require Proofs.C08_samples Proofs.C08_unbiased.
+
+(* the sample probabilities are >= 0 and sum to 1 *)
+Theorem C08_samples_total : forall t, full_ok t ->
+  total (samples t) == 1 /\ Forall (fun ps => 0 <= fst ps) (samples t).
+Proof. exact Proofs.C08_samples.samples_total. Qed.
+Print Assumptions C08_samples_total.
+
+(* every sample is a tree of external-sampling shape (so C08_estimator applies to it), provided the strategy
+   probabilities below traverser and opponent nodes are > 0 (es_shape demands sigma > 0 there) ... *)
+Theorem C08_samples_es_shape : forall t, full_pos t -> forall q s, In (q, s) (samples t) -> es_shape s.
+Proof. exact Proofs.C08_samples.samples_es_shape. Qed.
+Print Assumptions C08_samples_es_shape.
+
+(* ... and when only the traverser's strategy is > 0 (the opponent may never play some action): every sample
+   of positive probability *)
+Theorem C08_samples_es_shape_support : forall t, full_ok t -> walker_pos t ->
+  forall q s, In (q, s) (samples t) -> 0 < q -> es_shape s.
+Proof. exact Proofs.C08_samples.samples_es_shape_support. Qed.
+Print Assumptions C08_samples_es_shape_support.
+
+(* the traverser's strategy stays normalised in every sample (second hypothesis of C08_shift_invariant) *)
+Theorem C08_samples_normalised : forall t, full_ok t -> forall q s, In (q, s) (samples t) -> sigma_normalised s.
+Proof. exact Proofs.C08_samples.samples_normalised. Qed.
+Print Assumptions C08_samples_normalised.
+
+(* the sampled counterfactual value is an unbiased estimate of the value of the tree *)
+Theorem C08_utilde_unbiased : forall t, full_ok t -> expect utilde_Q (samples t) == value t.
+Proof. exact Proofs.C08_unbiased.utilde_unbiased. Qed.
+Print Assumptions C08_utilde_unbiased.
+
+(* `root_regret s a` is the value of the a-th entry of regret_estimator_Q s; at a traverser root with more
+   than a actions that is: sampled value of action a minus the strategy-weighted sampled value of the node *)
+Theorem C08_root_regret_meaning : forall b p ch a x,
+  nth_error ch a = Some x ->
+  root_regret (T KWalker b p ch) a == utilde_Q (snd x) - utilde_Q (T KWalker b p ch).
+Proof. exact Proofs.C08_unbiased.root_regret_walker. Qed.
+Print Assumptions C08_root_regret_meaning.
+
+(* root: the expected estimated regret of action a is value(child a) - value(root), the true counterfactual
+   regret (the others' reach of the root is 1) *)
+Theorem C08_root_regret_unbiased : forall b p ch a ca,
+  full_ok (T KWalker b p ch) -> nth_error ch a = Some ca ->
+  expect (fun s => root_regret s a) (samples (T KWalker b p ch))
+  == value (snd ca) - value (T KWalker b p ch).
+Proof. exact Proofs.C08_unbiased.root_regret_unbiased. Qed.
+Print Assumptions C08_root_regret_unbiased.
+
+(* the same for the regrets computed by the implementation model (C08_estimator on every sample; needs the
+   samples to have external-sampling shape, hence full_pos) *)
+Theorem C08_root_regret_impl_unbiased : forall b p ch a ca,
+  full_ok (T KWalker b p ch) -> full_pos (T KWalker b p ch) -> nth_error ch a = Some ca ->
+  expect (fun s => root_regret_impl s a) (samples (T KWalker b p ch))
+  == value (snd ca) - value (T KWalker b p ch).
+Proof. exact Proofs.C08_unbiased.root_regret_impl_unbiased. Qed.
+Print Assumptions C08_root_regret_impl_unbiased.
+
+(* any traverser node h of the full tree, given by its path (child indices from the root):
+     fnode t path = Some h         h is the node of the full tree at the path,
+     node_regret path a s          the estimated regret for action a at the copy of h in the sampled tree s
+                                   (= root_regret (forget n) a for the node n that `snode` finds by following
+                                   the kept edges annotated with the indices of the path), 0 if s did not
+                                   keep h,
+     reach_others t path           product of the edge probabilities along the path at KOpponent / KChance
+                                   nodes only: the counterfactual reach of h.
+   The expectation is the counterfactual regret of a at h. *)
+Theorem C08_node_regret_unbiased : forall t path h a ca,
+  full_ok t ->
+  fnode t path = Some h -> kind_of h = KWalker -> nth_error (children_of h) a = Some ca ->
+  expect (node_regret path a) (isamples t) == reach_others t path * (value (snd ca) - value h).
+Proof. exact Proofs.C08_unbiased.node_regret_unbiased. Qed.
+Print Assumptions C08_node_regret_unbiased.
+
+(* hypotheses satisfiable: a 3-level full tree (chance -> opponent -> traverser -> leaf / nested traverser ->
+   opponent), its four samples, and both sides of the theorems evaluated *)
+Example C08_example_full : full_ok ex_full /\ full_pos ex_full /\ walker_pos ex_full.
+Proof. exact Proofs.C08_unbiased.ex_full_ok. Qed.
+Print Assumptions C08_example_full.
+
+Example C08_example_node_hyps :
+  full_ok ex_full /\ fnode ex_full [1; 0; 1]%nat = Some ex_full_walker2 /\
+  kind_of ex_full_walker2 = KWalker /\
+  nth_error (children_of ex_full_walker2) 1 =
+    Some (4%N, 2#3, T KOpponent 6%N 0 [(5%N, 1#5, T KWalker 7%N 6 []); (6%N, 4#5, T KWalker 8%N 1 [])]).
+Proof. exact Proofs.C08_unbiased.ex_node_hyps. Qed.
+Print Assumptions C08_example_node_hyps.
+
+Example C08_example_samples :
+  map (fun ps => (Qred (fst ps), snd ps)) (samples ex_full)
+  = [(1#3, T KChance 0%N 0 [(8%N, 1, T KWalker 10%N 5 [])]);
+     (1#15,
+      T KChance 0%N 0
+        [(9%N, 1,
+          T KOpponent 1%N 0
+            [(7%N, 1#2,
+              T KWalker 2%N 0
+                [(2%N, 1#4, T KWalker 3%N 1 []);
+                 (3%N, 3#4,
+                  T KWalker 4%N 0
+                    [(2%N, 1#3, T KChance 5%N (-2) []);
+                     (4%N, 2#3, T KOpponent 6%N 0 [(5%N, 1#5, T KWalker 7%N 6 [])])])])])]);
+     (4#15,
+      T KChance 0%N 0
+        [(9%N, 1,
+          T KOpponent 1%N 0
+            [(7%N, 1#2,
+              T KWalker 2%N 0
+                [(2%N, 1#4, T KWalker 3%N 1 []);
+                 (3%N, 3#4,
+                  T KWalker 4%N 0
+                    [(2%N, 1#3, T KChance 5%N (-2) []);
+                     (4%N, 2#3, T KOpponent 6%N 0 [(6%N, 4#5, T KWalker 8%N 1 [])])])])])]);
+     (1#3,
+      T KChance 0%N 0
+        [(9%N, 1,
+          T KOpponent 1%N 0
+            [(6%N, 1#2,
+              T KWalker 11%N 0 [(2%N, 1#2, T KWalker 12%N 4 []); (3%N, 1#2, T KWalker 13%N (-1) [])])])])].
+Proof. exact Proofs.C08_unbiased.ex_full_samples. Qed.
+Print Assumptions C08_example_samples.
+
+(* left-hand sides (expectations over the samples) and right-hand sides (reach * value difference, computed on
+   the full tree) for the three traverser nodes of ex_full and both of their actions *)
+Example C08_example_unbiased_values :
+  Qred (total (samples ex_full)) = 1
+  /\ Qred (expect utilde_Q (samples ex_full)) = 29#12 /\ Qred (value ex_full) = 29#12
+  /\ fnode ex_full [1; 0; 1]%nat = Some ex_full_walker2 /\ Qred (reach_others ex_full [1; 0; 1]%nat) = 1#3
+  /\ map (fun pa => Qred (expect (node_regret (fst pa) (snd pa)) (isamples ex_full)))
+       [([1; 0], 0); ([1; 0], 1); ([1; 0; 1], 0); ([1; 0; 1], 1); ([1; 1], 0); ([1; 1], 1)]%nat
+     = [1#12; -(1#36); -(8#9); 4#9; 5#6; -(5#6)]
+  /\ map (fun pa => Qred (true_regret ex_full (fst pa) (snd pa)))
+       [([1; 0], 0); ([1; 0], 1); ([1; 0; 1], 0); ([1; 0; 1], 1); ([1; 1], 0); ([1; 1], 1)]%nat
+     = [1#12; -(1#36); -(8#9); 4#9; 5#6; -(5#6)].
+Proof. exact Proofs.C08_unbiased.ex_full_values. Qed.
+Print Assumptions C08_example_unbiased_values.
+
+Example C08_example_root :
+  full_ok ex_full_walker /\ full_pos ex_full_walker /\
+  ex_full_walker = T KWalker 2%N 0 [(2%N, 1#4, T KWalker 3%N 1 []); (3%N, 3#4, ex_full_walker2)] /\
+  Qred (expect (fun s => root_regret s 1) (samples ex_full_walker)) = - (1#12) /\
+  Qred (expect (fun s => root_regret_impl s 1) (samples ex_full_walker)) = - (1#12) /\
+  Qred (value ex_full_walker2 - value ex_full_walker) = - (1#12).
+Proof. exact Proofs.C08_unbiased.ex_root_hyps. Qed.
+Print Assumptions C08_example_root.
